@@ -3,6 +3,7 @@ package ext4ops
 import (
 	"encoding/binary"
 	"fmt"
+	"hash/crc32"
 	"strings"
 
 	"github.com/diskfs/go-diskfs/filesystem/ext4"
@@ -281,6 +282,9 @@ func emitLinks(c *hx.Ctx, id string, pre *lnkPre, rn *runner, d *memdev.Dev, cfg
 type dirPre struct {
 	bs     int
 	csum   bool
+	seed   uint32 // the filesystem's checksum seed, derived from the superblock bytes by the engine
+	ino    uint32 // the directory's inode number
+	gen    uint32 // its i_generation, from the inode bytes
 	blocks []uint64 // device block numbers of the directory, in file order
 	old    []byte
 	ents   []string // remaining entries as inode:type:hexname, in directory order
@@ -319,9 +323,25 @@ func (e *engine) preDir(d *memdev.Dev, cfg x.Config, rn *runner, o op) *dirPre {
 	if err != nil || k == 0 {
 		return nil
 	}
-	pre := &dirPre{bs: int(v.BlockSize), csum: v.RoCompat&0x400 != 0, blocks: dirBlocksOf(rn.fs, pino)}
+	pre := &dirPre{bs: int(v.BlockSize), csum: v.RoCompat&0x400 != 0, blocks: dirBlocksOf(rn.fs, pino), ino: pino}
 	if len(pre.blocks) == 0 || len(pre.blocks) > 64 {
 		return nil
+	}
+	if pre.csum {
+		// the checksum seed and the directory's generation, decoded here (not taken from the library): the Lean
+		// write-back model computes every block's checksum tail from them and the tails are compared unmasked
+		sb := d.Bytes(cfg.Start+1024, 1024)
+		if v.Incompat&0x2000 != 0 {
+			pre.seed = binary.LittleEndian.Uint32(sb[0x270:])
+		} else {
+			pre.seed = ^crc32.Update(0, crc32.MakeTable(crc32.Castagnoli), sb[0x68:0x78])
+		}
+		g := int((pino - 1) / v.IPG)
+		if g >= len(v.Groups) {
+			return nil
+		}
+		raw := d.Bytes(cfg.Start+int64(v.Groups[g].InodeTable)*int64(pre.bs)+int64((pino-1)%v.IPG)*int64(v.InodeSize), 128)
+		pre.gen = binary.LittleEndian.Uint32(raw[0x64:])
 	}
 	limit := pre.bs
 	if pre.csum {
@@ -345,24 +365,19 @@ func (e *engine) preDir(d *memdev.Dev, cfg x.Config, rn *runner, o op) *dirPre {
 	return pre
 }
 
-func maskDirCsum(b []byte, bs int) []byte {
-	out := append([]byte(nil), b...)
-	for o := bs; o <= len(out); o += bs {
-		copy(out[o-4:o], []byte{0, 0, 0, 0})
-	}
-	return out
-}
-
 func emitDirRewrite(c *hx.Ctx, id string, pre *dirPre, d *memdev.Dev, cfg x.Config, padded bool) {
 	var after []byte
 	for _, b := range pre.blocks {
 		after = append(after, d.Bytes(cfg.Start+int64(b)*int64(pre.bs), pre.bs)...)
 	}
+	kv := []string{fmt.Sprintf("bs=%d", pre.bs), fmt.Sprintf("csum=%d", b2i(pre.csum)), fmt.Sprintf("pad=%d", b2i(padded)),
+		"old=" + hx.Hex(pre.old), "ents=" + strings.Join(pre.ents, ",")}
 	if pre.csum {
-		after = maskDirCsum(after, pre.bs)
+		// unmasked: the model carries the checksum seed, the directory's inode number and generation
+		kv = append(kv, fmt.Sprintf("seed=%d", pre.seed), fmt.Sprintf("ino=%d", pre.ino), fmt.Sprintf("gen=%d", pre.gen))
+		c.Stat("dirrewrite.csum-unmasked")
 	}
-	c.Case(id+"/dw", "ext4.dirrewrite", fmt.Sprintf("bs=%d", pre.bs), fmt.Sprintf("csum=%d", b2i(pre.csum)), fmt.Sprintf("pad=%d", b2i(padded)),
-		"old="+hx.Hex(pre.old), "ents="+strings.Join(pre.ents, ","))
+	c.Case(id+"/dw", "ext4.dirrewrite", kv...)
 	c.Impl(id+"/dw", "out="+hx.Hex(after))
 	c.Stat("dirrewrite")
 	if len(pre.blocks) > 1 {
